@@ -356,7 +356,9 @@ open ArrowModel.Generated.C06 in
 `next_inner` selector loop, the `read_mask_batch` loop, the offset-before-limit order of
 `build_limited`, the predicate limit truncation/padding, the `RowGroupFrontier` walk
 (`row_count() == 0`, `split_off(row_count)`, budget from the *selected* rows) and
-`RowBudget::{rows_after, advance, apply_to_plan}` — is found verbatim (modulo whitespace) in
+`RowBudget::{rows_after, advance, apply_to_plan}`, and the byte-sum / offset expressions of the
+value-level `skip` of the PLAIN and DELTA_LENGTH_BYTE_ARRAY byte-array decoders (offset and
+view flavours) — is found verbatim (modulo whitespace) in
 the current source by `tools/translate.py`.  If any of them is edited, its item is LOST and
 this obligation fails, forcing the model and the proofs to be re-examined. -/
 theorem source_shape_ties :
@@ -368,7 +370,9 @@ theorem source_shape_ties :
     SHAPE_PREDICATE_LIMIT_lost = false ∧ SHAPE_FRONTIER_lost = false ∧
     SHAPE_FRONTIER_PLAN_lost = false ∧ SHAPE_BUDGET_lost = false ∧
     BUDGET_EXHAUSTED_LIMIT_lost = false ∧ BUDGET_DEFAULT_OFFSET_lost = false ∧
-    BUDGET_ADVANCE_SKIP_WHEN_lost = false ∧ DEFAULT_AUTO_THRESHOLD_lost = false := by
+    BUDGET_ADVANCE_SKIP_WHEN_lost = false ∧ DEFAULT_AUTO_THRESHOLD_lost = false ∧
+    SHAPE_VIEW_DELTA_LENGTH_SKIP_lost = false ∧ SHAPE_BYTES_DELTA_LENGTH_SKIP_lost = false ∧
+    SHAPE_VIEW_PLAIN_SKIP_lost = false ∧ SHAPE_BYTES_PLAIN_SKIP_lost = false := by
   decide
 
 end ArrowModel.C06
